@@ -287,8 +287,9 @@ def race_reports(prefix):
                     top = top or "%s@%s:%s" % (m.group(1).strip(), "gen/" + f.split("/gen/", 1)[1], m.group(3))
                     break
             if not top:
+                # no frame in goa or in generated code: the harness (or the Go runtime) raced with itself - not a verdict
                 m = re.search(r"\n  ([^\n]+)\(\)\n\s+(/[^\s:]+\.go):(\d+)", block)
-                top = "%s@%s:%s" % (m.group(1).strip(), m.group(2), m.group(3)) if m else "unknown"
+                raise core.Infra("race report without a frame in goa or generated code (%s): %s" % (m.group(0).strip() if m else "?", block[:1500]))
             tops.append(top)
     return n, tops
 
@@ -330,11 +331,13 @@ def run(ctx):
                        "(kinds, codecs, bodies, serial, order)")
     ctx.assumptions += ["absence of data races is judged by the Go race detector on the executed schedules (external oracle)",
                         "gates exist only where the caller injects code (decoder/encoder factories, stub service, Auther): finer interleavings are left to the Go scheduler under load",
+                        "gob replies read by raw clients are compared by the values they carry, not byte for byte: encoding/gob numbers and names wire types from a registry of the whole process",
                         "the reply a request gets when it is served alone is F(payload) of the echo statement; in the serial mode the runner has one P, so that per-P caches are shared by consecutive regions"]
     ctx.mc("mc/MC_Concurrency", consts={"K": 2}, label="MC K=2")
     if not quick:
-        ctx.mc("mc/MC_Concurrency", consts={"K": 3, "CodecSet": '{"json", "text"}', "BodySet": '{"bytes"}', "KindSet": '{"ok", "invalid", "plain"}'}, label="MC K=3", timeout=1500)
-        ctx.mc("mc/MC_Concurrency", consts={"KindSet": '{"ok", "invalid"}', "CodecSet": '{"json", "xml", "gob", "text", "unsup"}', "BodySet": '{"object", "string", "bytes", "list"}'},
+        big = (MC_CFG % "NoConflict Echo").replace("CHECK_DEADLOCK", "VIEW NoHist\nCHECK_DEADLOCK")
+        ctx.mc("mc/MC_Concurrency", cfg_text=big, consts={"K": 3}, label="MC K=3 (safety, states without the schedule)", timeout=1500)
+        ctx.mc("mc/MC_Concurrency", cfg_text=big, consts={"KindSet": '{"ok", "invalid"}', "CodecSet": '{"json", "xml", "gob", "text", "unsup"}', "BodySet": '{"object", "string", "bytes", "list"}'},
                label="MC K=2 all codecs", timeout=1500)
     # vacuity: each named deviation is caught by the invariant that speaks about it
     for dev, inv, serial in (("errorencoder.formatter_assigned_per_request", "NoConflict", "{FALSE}"), ("handler.shared_error_var", "Echo", "{TRUE, FALSE}"),
